@@ -68,7 +68,7 @@ static void reset_ghost(struct File *f)
     vb_file = f; vb_exc = 0;
     g_drop_calls = g_push_calls = g_delete_calls = g_writeLC_calls = g_next_calls = g_encode_calls = 0;
     g_compress_calls = g_lcwrite_calls = g_lcdtor = g_eos_queue = g_eos_stream = g_stats_written = g_seekp_calls = g_closed = g_abort_q = g_abort_u = 0;
-    g_pushed = g_deleted = g_created = g_dequeued = 0; g_sig_pos = -1; g_lcread_calls = 0; g_hdr_bad = 0;
+    g_pushed = g_deleted = g_created = g_dequeued = 0; g_sig_pos = -1; g_obj_end = -1; g_lcread_calls = 0; g_hdr_bad = 0;
 }
 #define U (f.m_uncompressedFile)
 #define Q (f.m_readWriteQueue)
@@ -183,6 +183,8 @@ def all_jobs(info):
         ('C10/File/uncompressedFile2ReadWriteQueue/skipping-an-unknown-object-makes-progress-or-reaches-the-declared-end', '!(vb_exc == 0 && g_sig_pos >= 0 && g_created == 0 && U.m_rdstate == 0) || U.m_tellg > g0 || U.m_tellg == U.m_fileSize'),
         ('C10/File/uncompressedFile2ReadWriteQueue/a-header-declaring-less-than-its-own-16-bytes-ends-the-read-without-creating-an-object', '!(g_sig_pos >= 0 && vb_last_osize < 16) || (vb_exc == VB_EXC_BLF && g_push_calls == 0 && g_delete_calls == 0)'),
         ('C10/File/uncompressedFile2ReadWriteQueue/position-stays-inside-the-stream', 'U.m_tellg <= U.m_fileSize'),
+        ('C10/File/uncompressedFile2ReadWriteQueue/a-delivered-object-moves-the-position-forward-by-at-least-one-base-header-(no-object-is-delivered-twice)', 'g_push_calls == 0 || U.m_tellg >= g_sig_pos + 16'),
+        ('C09/File/uncompressedFile2ReadWriteQueue/after-a-delivered-object-the-position-is-its-decoded-end-or-its-declared-end-whichever-comes-first', 'g_push_calls == 0 || U.m_tellg == ((g_obj_end < g_sig_pos + (int64_t)vb_last_osize) ? g_obj_end : g_sig_pos + (int64_t)vb_last_osize)'),
     ]
     for l, c in asr: b += A(l, c)
     # remember the declared size the header stub produced: wrap ObjectHeaderBase_read's objectSize via a ghost
